@@ -413,9 +413,40 @@ class Effects:
                         if g is not None and g.kind in ("property", "lazyproperty"):
                             evs.append(Event(PURE, "property", f.file, n.lineno, callee=g, imprecise=len(cands) > 1))
 
+    def _getattr_names(self, f, e):
+        """the attribute names `e` (second argument of getattr) can stand for: a constant, or - when it is a parameter of f - the
+        constants the call sites of f (found by name) pass for it"""
+        if isinstance(e, ast.Constant) and isinstance(e.value, str):
+            return [e.value]
+        if isinstance(e, ast.Name) and e.id in f.params:
+            ps = f.params[1:] if (f.cls is not None and f.kind != "staticmethod") else f.params
+            if e.id not in ps:
+                return []
+            i = ps.index(e.id)
+            names = set()
+            for g in self.prog.all_functions():
+                for c in ast.walk(g.node):
+                    if isinstance(c, ast.Call) and ((isinstance(c.func, ast.Attribute) and c.func.attr == f.name)
+                                                    or (isinstance(c.func, ast.Name) and c.func.id == f.name)):
+                        a = c.args[i] if i < len(c.args) else next((k.value for k in c.keywords if k.arg == e.id), None)
+                        if isinstance(a, ast.Constant) and isinstance(a.value, str):
+                            names.add(a.value)
+            return sorted(names)
+        return []
+
     def _call(self, n, f, fc, fresh, in_oxml, in_model, evs):
         T, M = self.T, self.M
         fn = n.func
+        if isinstance(fn, ast.Name) and fn.id == "getattr" and len(n.args) >= 2 and not isinstance(n.args[1], ast.Constant):
+            # getattr(x, <name>): reads the property each possible name denotes on x
+            bt0 = T.expr(n.args[0], fc)
+            for nm in self._getattr_names(f, n.args[1]):
+                for a in bt0:
+                    if a[0] == "inst":
+                        g = self.prog.lookup(a[1], nm)
+                        if g is not None and g.kind in ("property", "lazyproperty"):
+                            evs.append(Event(PURE, "property (getattr %r)" % nm, f.file, n.lineno, callee=g))
+            return
         # lxml module-level functions that rewrite the tree they are given (namespace declarations, attributes, elements)
         d_ = dotted(fn) or ""
         if d_.split(".")[-1] in LXML_TREE_FUNCS and (d_.startswith(("etree.", "lxml.", "objectify.")) or "." not in d_) and n.args:
